@@ -13,7 +13,8 @@
    [blocks_ok]: well-formed CIDs, sections within MaxAllowedSectionSize; [hashes_ok hok]: every block
    hashes to its CID; [cids_indexable]: CIDs of at most 2048 bytes (MaxIndexCidSize); sizes < 2^63. *)
 From GoCar Require Import Bytes Varint Cid Header Frame V2Header Scan Index Store CliCmds.
-From GoCarProofs Require Import StoreInv CliBase CliWalk CliProducers CliConcat CliFilter CliClosure CliTheorems CliGet CliAppend CliExamples.
+From GoCarProofs Require Import StoreInv CliBase CliWalk CliProducers CliConcat CliFilter CliClosure CliTheorems CliGet CliAppend CliIndexFacts CliFull CliExamples.
+From GoCarProofs Require FinalIndex.
 
 (* ---- car list / car root ------------------------------------------------------------------------------ *)
 Theorem C19_list :
@@ -292,6 +293,60 @@ Theorem C19_closed_under_verify_filter_v1 :
 Proof. exact closed_verify_filter_v1. Qed.
 Print Assumptions C19_closed_under_verify_filter_v1.
 
+(* outputs that embed an index (round 2: the guard [index_answers] of the _partial statements below is
+   discharged with the index theory of C03/C05/C07/C11 -- GetAll on a loaded index finds every record,
+   WriteTo/ReadFrom round trip).  Residual hypothesis: fewer than 2^31 blocks.  It is needed because
+   car-multihash-index-sorted stores the number of distinct hash codes in an int32 (index.Marshal);
+   the block count bounds that number.  For car-index-sorted there is no such hypothesis. *)
+Theorem C19_closed_under_verify_filter_v2 :
+  forall hok hdrdec, hdrdec pragma_body = Some ([], 2) ->
+  forall sel inv hb roots bs file outf,
+    hdr_ok hdrdec hb roots -> blocks_ok bs -> hashes_ok hok bs -> cids_indexable bs ->
+    valid_input hb bs file ->
+    hdr_ok hdrdec (filter_hb sel inv roots) (filter_roots sel inv roots) ->
+    51 + blen (payload_hb (filter_hb sel inv roots) (filter_spec sel inv bs))
+       + blen (idx_write (filter_index (filter_hb sel inv roots) (filter_spec sel inv bs))) < two63 ->
+    filter_roots sel inv roots <> [] ->
+    roots_present (filter_roots sel inv roots) (filter_spec sel inv bs) = true ->
+    N.of_nat (length (filter_spec sel inv bs)) < two31 ->
+    exists out,
+      filter_car hok hdrdec sel inv 2 false file outf = (true, Some out) /\
+      verify_car hok hdrdec out = Ok tt.
+Proof. exact closed_verify_filter_v2. Qed.
+Print Assumptions C19_closed_under_verify_filter_v2.
+
+Theorem C19_closed_under_verify_filter_append :
+  forall hok hdrdec, hdrdec pragma_body = Some ([], 2) ->
+  forall sel inv hb roots bs file ohb oroots st hi lo ioff trailer,
+    hdr_ok hdrdec hb roots -> blocks_ok bs -> hashes_ok hok bs -> cids_indexable bs ->
+    valid_input hb bs file ->
+    hdr_ok hdrdec ohb oroots -> blen (enc_header (Some oroots) 1) = blen ohb ->
+    blocks_ok st -> hashes_ok hok st ->
+    hi < two64 -> lo < two64 -> ioff < two63 ->
+    51 + blen (payload_hb ohb st) + blen trailer < two63 ->
+    let st' := st ++ dedup_from (map fst st) (filter (fun b => match_filter sel inv (fst b)) bs) in
+    51 + blen (payload_hb ohb st') + blen (idx_write (filter_index ohb st')) < two63 ->
+    oroots <> [] -> roots_present oroots st' = true -> N.of_nat (length st') < two31 ->
+    exists out,
+      filter_car hok hdrdec sel inv 2 true file (Some (v2file hi lo 0 ioff (payload_hb ohb st) trailer))
+        = (true, Some out) /\
+      verify_car hok hdrdec out = Ok tt.
+Proof. exact closed_verify_filter_append. Qed.
+Print Assumptions C19_closed_under_verify_filter_append.
+
+Theorem C19_closed_under_verify_index :
+  forall hok hdrdec, hdrdec pragma_body = Some ([], 2) ->
+  forall hb roots bs file k codec i0,
+    hdr_ok hdrdec hb roots -> reencode_header hb roots 1 = hb -> blocks_ok bs -> valid_input hb bs file ->
+    codec_of_kind k = Some codec -> idx_new codec = Some i0 -> hashes_ok hok bs ->
+    roots <> [] -> roots_present roots bs = true ->
+    51 + blen (payload_hb hb bs) + blen (idx_write (idx_load (regen_records_hb hb bs) i0)) < two63 ->
+    (codec = codec_mh_sorted -> N.of_nat (length bs) < two31) ->
+    exists out, index_car hdrdec k 2 file = (true, Some out) /\ verify_car hok hdrdec out = Ok tt.
+Proof. exact closed_verify_index. Qed.
+Print Assumptions C19_closed_under_verify_index.
+
+(* the guarded forms, kept: they hold for ANY index bytes satisfying the guard *)
 (* partial (outputs that embed an index): under the executable guard [index_answers] -- the embedded
    index bytes parse back and answer for every block's CID.  That the guard always holds is the
    content of C03 (index soundness/completeness) and C11 (lossless serialisation); the check evaluates
@@ -337,6 +392,77 @@ Proof. exact verify_rootless. Qed.
 Print Assumptions C19_verify_rejects_rootless.
 
 (* ---- car get-block ------------------------------------------------------------------------------------------------- *)
+(* C19_get_block in full (round 2; the guards of the _partial statements further down are discharged).
+   CARv1 or index-less CARv2 (the read-only blockstore generates its index): a key whose multihash some
+   block carries yields the exact data bytes of such a block; otherwise "not found" (exit status 1). *)
+Theorem C19_get_block :
+  forall (_ : bytes -> bytes -> option bool) hdrdec, hdrdec pragma_body = Some ([], 2) ->
+  forall hb roots bs file key kp,
+    hdr_ok hdrdec hb roots -> blocks_ok bs -> cids_indexable bs -> no_index_input hb bs file ->
+    cid_parse key = Some kp -> is_identity kp = false ->
+    existsb (fun b => same_mh (fst b) key) bs = true ->
+    exists c d, In (c, d) bs /\ same_mh c key = true /\ get_block hdrdec file key = Ok d.
+Proof. exact get_block_present. Qed.
+Print Assumptions C19_get_block.
+
+Theorem C19_get_block_absent :
+  forall (_ : bytes -> bytes -> option bool) hdrdec, hdrdec pragma_body = Some ([], 2) ->
+  forall hb roots bs file key kp,
+    hdr_ok hdrdec hb roots -> blocks_ok bs -> cids_indexable bs -> no_index_input hb bs file ->
+    cid_parse key = Some kp -> is_identity kp = false ->
+    existsb (fun b => same_mh (fst b) key) bs = false ->
+    get_block hdrdec file key = Err ENotFound.
+Proof. exact get_block_absent. Qed.
+Print Assumptions C19_get_block_absent.
+
+(* CARv2 embedding an index the library wrote -- what car index, car filter --version 2, car create,
+   the blockstores produce: either codec ([fresh i0]), loaded with any record list that [describes]
+   the payload (each record is the record of a section; every non-identity block has one: all
+   section records, or the non-identity ones, in any order), behind any data / index padding,
+   followed by anything.  [codes_fit]: for the multihash codec, fewer than 2^31 distinct hash codes
+   (the int32 count field of index.Marshal). *)
+Theorem C19_get_block_embedded_index :
+  forall (_ : bytes -> bytes -> option bool) hdrdec, hdrdec pragma_body = Some ([], 2) ->
+  forall hb roots bs hi lo dpad ipad recs i0 extra,
+    hdr_ok hdrdec hb roots -> blocks_ok bs -> hi < two64 -> lo < two64 ->
+    fresh i0 -> describes recs hb bs -> (length recs <= length bs)%nat -> codes_fit i0 recs ->
+    51 + dpad + blen (payload_hb hb bs) + ipad + blen (idx_write (idx_load recs i0) ++ extra) < two63 ->
+  forall key kp,
+    cid_parse key = Some kp -> is_identity kp = false ->
+    existsb (fun b => same_mh (fst b) key) bs = true ->
+    exists c d, In (c, d) bs /\ same_mh c key = true /\
+      get_block hdrdec (v2file hi lo dpad (51 + dpad + blen (payload_hb hb bs) + ipad) (payload_hb hb bs)
+                               (zerosN ipad ++ idx_write (idx_load recs i0) ++ extra)) key = Ok d.
+Proof. exact get_block_own_index_present. Qed.
+Print Assumptions C19_get_block_embedded_index.
+
+Theorem C19_get_block_embedded_index_absent :
+  forall (_ : bytes -> bytes -> option bool) hdrdec, hdrdec pragma_body = Some ([], 2) ->
+  forall hb roots bs hi lo dpad ipad recs i0 extra,
+    hdr_ok hdrdec hb roots -> blocks_ok bs -> hi < two64 -> lo < two64 ->
+    fresh i0 -> describes recs hb bs -> (length recs <= length bs)%nat -> codes_fit i0 recs ->
+    51 + dpad + blen (payload_hb hb bs) + ipad + blen (idx_write (idx_load recs i0) ++ extra) < two63 ->
+  forall key kp,
+    cid_parse key = Some kp -> is_identity kp = false ->
+    existsb (fun b => same_mh (fst b) key) bs = false ->
+    get_block hdrdec (v2file hi lo dpad (51 + dpad + blen (payload_hb hb bs) + ipad) (payload_hb hb bs)
+                             (zerosN ipad ++ idx_write (idx_load recs i0) ++ extra)) key = Err ENotFound.
+Proof. exact get_block_own_index_absent. Qed.
+Print Assumptions C19_get_block_embedded_index_absent.
+
+(* the record lists the producers load their indexes with do describe the payload *)
+Theorem C19_index_records_describe_payload :
+  forall hb bs,
+    describes (regen_records_hb hb bs) hb bs /\ describes (all_records_hb hb bs) hb bs /\
+    describes (session_records hb bs) hb bs /\
+    (length (regen_records_hb hb bs) <= length bs)%nat /\ (length (session_records hb bs) <= length bs)%nat.
+Proof.
+  exact (fun hb bs => conj (regen_describes hb bs) (conj (all_describes hb bs) (conj (session_describes hb bs)
+           (conj (length_regen hb bs) (length_session hb bs))))).
+Qed.
+Print Assumptions C19_index_records_describe_payload.
+
+(* the guarded forms, kept: they hold for ANY index (e.g. one a foreign tool embedded) meeting the guard *)
 (* C19_get_block, partial: for a CARv1 or an index-less CARv2 (the read-only blockstore generates its
    index), under the executable guard [candidates_ok] -- the offsets the generated index yields for
    the key are section starts and one of them carries the key's multihash (index soundness and
@@ -388,6 +514,69 @@ Theorem C19_get_block_identity :
     get_block hdrdec file key = Ok (c_digest kp).
 Proof. exact get_block_identity. Qed.
 Print Assumptions C19_get_block_identity.
+
+(* ---- car detach-index list, car inspect without --full ------------------------------------------------------------ *)
+(* car index create (multihash codec) then car detach-index list: one "<multihash> <offset>" line per
+   non-identity section, as a multiset (the listing order is by code, width, digest) *)
+Theorem C19_detach_list :
+  forall (_ : bytes -> bytes -> option bool) hdrdec, hdrdec pragma_body = Some ([], 2) ->
+  forall hb roots bs file k,
+    hdr_ok hdrdec hb roots -> blocks_ok bs -> cids_indexable bs -> valid_input hb bs file ->
+    codec_of_kind k = Some codec_mh_sorted ->
+    blen (payload_hb hb bs) < two63 ->
+    blen (idx_write (idx_load (regen_records_hb hb bs) (IdxMh []))) < two63 ->
+    N.of_nat (length bs) < two31 ->
+    exists ibytes l,
+      index_create hdrdec k file = (true, Some ibytes) /\
+      detach_list ibytes = (true, l) /\
+      Permutation.Permutation l
+        (map (fun r => (mh_enc (r_code r) (r_digest r), r_off r)) (regen_records_hb hb bs)).
+Proof. exact detach_list_of_index_create. Qed.
+Print Assumptions C19_detach_list.
+
+(* error branch: a car-index-sorted index is "not iterable" *)
+Theorem C19_detach_list_refuses_digest_only_index :
+  forall (_ : bytes -> bytes -> option bool) (hdrdec : bytes -> option (list bytes * N)),
+  hdrdec pragma_body = Some ([], 2) ->
+  forall recs extra,
+    Forall FinalIndex.rec_fits recs -> blen (idx_write (idx_load recs (IdxSorted []))) < two63 ->
+    detach_list (idx_write (idx_load recs (IdxSorted [])) ++ extra) = (false, []).
+Proof. exact detach_list_sorted_refused. Qed.
+Print Assumptions C19_detach_list_refuses_digest_only_index.
+
+(* car inspect without --full: no hashing, hence no hypothesis on the hash oracle; same report *)
+Theorem C19_inspect_quick_carv1 :
+  forall hok hdrdec, hdrdec pragma_body = Some ([], 2) ->
+  forall hb roots bs, hdr_ok hdrdec hb roots -> blocks_ok bs ->
+    inspect_car hok hdrdec false (payload_hb hb bs)
+    = Ok (mkis 1 zero_v2hdr roots (map isec_of bs) 0 (blen (payload_hb hb bs))).
+Proof. exact inspect_quick_v1. Qed.
+Print Assumptions C19_inspect_quick_carv1.
+
+Theorem C19_inspect_quick_carv2_indexless :
+  forall hok hdrdec, hdrdec pragma_body = Some ([], 2) ->
+  forall hb roots bs hi lo dpad trailer,
+    hdr_ok hdrdec hb roots -> blocks_ok bs ->
+    hi < two64 -> lo < two64 -> 51 + dpad + blen (payload_hb hb bs) + blen trailer < two63 ->
+    inspect_car hok hdrdec false (v2file hi lo dpad 0 (payload_hb hb bs) trailer)
+    = Ok (mkis 2 (mkv2 hi lo (51 + dpad) (blen (payload_hb hb bs)) 0) roots (map isec_of bs) 0
+               (blen (payload_hb hb bs))).
+Proof. exact inspect_quick_v2_indexless. Qed.
+Print Assumptions C19_inspect_quick_carv2_indexless.
+
+Theorem C19_inspect_quick_carv2_indexed :
+  forall hok hdrdec, hdrdec pragma_body = Some ([], 2) ->
+  forall hb roots bs hi lo dpad ipad codec rest,
+    hdr_ok hdrdec hb roots -> blocks_ok bs ->
+    hi < two64 -> lo < two64 -> codec < two63 ->
+    51 + dpad + blen (payload_hb hb bs) + ipad + blen (put_uv codec ++ rest) < two63 ->
+    inspect_car hok hdrdec false
+      (v2file hi lo dpad (51 + dpad + blen (payload_hb hb bs) + ipad) (payload_hb hb bs)
+              (zerosN ipad ++ put_uv codec ++ rest))
+    = Ok (mkis 2 (mkv2 hi lo (51 + dpad) (blen (payload_hb hb bs)) (51 + dpad + blen (payload_hb hb bs) + ipad))
+               roots (map isec_of bs) codec (blen (payload_hb hb bs))).
+Proof. exact inspect_quick_v2_indexed. Qed.
+Print Assumptions C19_inspect_quick_carv2_indexed.
 
 (* ---- car concat ------------------------------------------------------------------------------------------------------ *)
 (* C19_concat_blocks (partial: executable guard ver <> 2) with its closure: for inputs that each
